@@ -24,6 +24,7 @@ func rulesC20(c *Ctx, r *Report) {
 		r.undecided("ERR=>NIL", "formats/smtext.ReadNCBI", "anchor", "", "ReadNCBI not found")
 	} else {
 		rulesReadNCBI(c, r, rd, ex)
+		rulesNCBITokens(c, r, rd)
 		r.floor("REJECT-ONLY", rulesRejectOnly(c, r, rd, "formats/smtext.ReadNCBI", ncbiRejectCfg()), 3, "errors constructed and external error sources in ReadNCBI and its helpers (2 + 1 constructed, ParseFloat, Scanner.Err today)")
 	}
 	sym := c.fn("align", "SubstitutionMatrix.Symmetrical")
